@@ -37,6 +37,10 @@ IDIOMS = {
     "NOT-NONE": "dereference dominated by a test that the value is not None / truthy",
     "ISINSTANCE": "attribute of a union-typed member dominated by an isinstance test of a class that declares it",
     "NUMERIC": "both operands of an ordering comparison are ints/floats by construction, annotation or isinstance test",
+    "ITER-OF-LIST": "iter() of a list/tuple-typed value (literal, list(..), field annotated list/tuple/dict) cannot raise",
+    "LOOP-NONEMPTY": "x[-1] / x[0] / x.pop() under `while x:` with nothing that can shrink x between the loop test and the use",
+    "PAIRED-STACK": "y.pop() right after a LOOP-NONEMPTY x.pop(), where every growth of x is adjacent to a growth of y and y "
+                    "shrinks nowhere else: len(y) >= len(x) >= 1",
 }
 
 
@@ -908,6 +912,12 @@ def rule_ops(res, cx):
                         continue
                     if name in SAFE_BUILTINS:
                         continue
+                    if name == "iter" and len(n.args) == 1 and not n.keywords:
+                        if _list_typed(n.args[0], fn, cx):
+                            ok(construct, "ITER-OF-LIST", n)
+                        else:
+                            bad(construct, n, f"iter() of `{P.text(n.args[0])[:40]}`, which is not known to be a list/tuple/dict: TypeError possible")
+                        continue
                     if name in IO_CALLS and fn.qual == "parse_file":
                         continue
                     bad(construct, n, f"call of `{name}` is not on the list of non-raising builtins and has no idiom")
@@ -915,8 +925,17 @@ def rule_ops(res, cx):
                 if kind == "method":
                     if name in SAFE_METHODS or (name in IO_CALLS and fn.qual == "parse_file"):
                         pass
-                    elif name == "pop" and P.know_at(n, fn).K.get(("truthy", P.text(n.func.value))) is True:
-                        ok(construct, "MEMBERSHIP", n)
+                    elif name == "pop" and len(n.args) <= 1 and not n.keywords and \
+                            (not n.args or (isinstance(n.args[0], ast.Constant) and n.args[0].value in (0, -1))):
+                        r1 = loop_nonempty(n, n.func.value, fn)
+                        if r1 is None:
+                            ok(construct, "LOOP-NONEMPTY", n)
+                        else:
+                            r2 = paired_stack(n, n.func.value, fn, cx)
+                            if r2 is None:
+                                ok(construct, "PAIRED-STACK", n)
+                            else:
+                                bad(construct, n, f".pop() can raise IndexError: not LOOP-NONEMPTY ({r1}); not PAIRED-STACK ({r2})")
                     else:
                         bad(construct, n, f"method `.{name}()` can raise (or is not classified); no idiom")
                     # None receiver handled below
@@ -940,6 +959,11 @@ def rule_ops(res, cx):
                         ok(construct, "TOKEN-CURSOR", n)
                     else:
                         bad(construct, n, "self.tokens[self.pos] can raise IndexError: the TOKEN-CURSOR obligations are not all met")
+                elif isinstance(n.value, ast.Name) and ((isinstance(n.slice, ast.Constant) and n.slice.value == 0) or
+                                                       kt == "-1") and loop_nonempty(n, n.value, fn) is None:
+                    ok(construct, "LOOP-NONEMPTY", n)
+                elif isinstance(n.value, ast.Name) and ((isinstance(n.slice, ast.Constant) and n.slice.value == 0) or kt == "-1"):
+                    bad(construct, n, "subscript can raise IndexError: not LOOP-NONEMPTY (" + loop_nonempty(n, n.value, fn) + ")")
                 elif P.table_of(n.value):
                     T = P.table_of(n.value)
                     org = P.origins(n.slice, fn, n)
@@ -1020,6 +1044,196 @@ def rule_ops(res, cx):
                             bad(construct, n, f"ordering comparison can raise TypeError: {lacking} not known to be int/float")
                     left = right
     res.extra["idioms"] = {k: {"why": IDIOMS.get(k, "see checker"), "instances": v} for k, v in sorted(idiom_count.items())}
+
+
+SAFE_LIST_CONSUMERS = {"len", "list", "iter", "tuple", "sorted", "bool", "any", "all", "str", "repr", "isinstance",
+                       "enumerate", "reversed", "set", "frozenset"}
+
+
+def _family(fn):
+    """The outermost enclosing function of fn with all functions nested in it (they share its local lists)."""
+    root = fn
+    while root.parent is not None:
+        root = root.parent
+    fam = [g for g in fn.mod.funcs.values() if g is root or _nested_in(g, root)]
+    return root, fam
+
+
+def _nested_in(g, root):
+    p = g.parent
+    while p is not None:
+        if p is root:
+            return True
+        p = p.parent
+    return False
+
+
+def _refers(node, name, g, owner):
+    """node is a Name `name` that denotes owner's local (not shadowed in g)."""
+    return isinstance(node, ast.Name) and node.id == name and P._scope_of(name, g) is owner
+
+
+def _shrinks(name, owner, fam):
+    """[(function, node)] of everything that may shrink / rebind / leak the list `name` local to `owner`."""
+    out = []
+    direct = {}
+    for g in fam:
+        for n in g.mod.nodes(g):
+            hit = False
+            if isinstance(n, ast.Call) and isinstance(n.func, ast.Attribute) and _refers(n.func.value, name, g, owner):
+                if n.func.attr not in ("append", "extend", "insert", "copy", "index", "count"):
+                    hit = True                      # pop, remove, clear, sort, __delitem__, ...: anything not known to keep or grow
+            elif isinstance(n, ast.Call):
+                fname = n.func.id if isinstance(n.func, ast.Name) else None
+                args = list(n.args) + [kw.value for kw in n.keywords]
+                if any(_refers(a, name, g, owner) for a in args) and fname not in SAFE_LIST_CONSUMERS:
+                    hit = True                      # escapes into a call that could mutate it
+            elif isinstance(n, ast.Delete):
+                hit = any(_refers(x, name, g, owner) for t in n.targets for x in ast.walk(t))
+            elif isinstance(n, (ast.Assign, ast.AugAssign, ast.AnnAssign)):
+                tg = n.targets if isinstance(n, ast.Assign) else [n.target]
+                for t in tg:
+                    for x in ast.walk(t):
+                        if _refers(x, name, g, owner) and isinstance(x._parent, ast.Subscript) and isinstance(x._parent.ctx, ast.Store) \
+                                and isinstance(x._parent.slice, ast.Slice):
+                            hit = True              # slice assignment can shorten
+                        elif _refers(x, name, g, owner) and isinstance(x.ctx, ast.Store):
+                            hit = True              # re-binding
+            elif isinstance(n, (ast.For, ast.comprehension, ast.With, ast.NamedExpr)):
+                t = n.target if not isinstance(n, ast.With) else None
+                if t is not None and any(_refers(x, name, g, owner) and isinstance(x.ctx, ast.Store) for x in ast.walk(t)):
+                    hit = True
+            if hit:
+                out.append((g, n))
+                direct.setdefault(g, []).append(n)
+    # calls of family functions that (transitively) shrink
+    shrinking = set(direct)
+    changed = True
+    while changed:
+        changed = False
+        for g in fam:
+            if g in shrinking:
+                continue
+            if any(h in shrinking for h in P.callees(g) if h in fam):
+                shrinking.add(g)
+                changed = True
+    for g in fam:
+        for c in P.calls_in(g):
+            k, p = P.resolve(c, g)
+            if k == "func" and any(h in shrinking for h in p if h in fam):
+                out.append((g, c))
+    return out
+
+
+def loop_nonempty(op, lst, fn):
+    """None if the use `op` of local list `lst` (x[-1], x[0], x.pop()) is reached only with x non-empty because it sits
+    under `while x:` and nothing on the way from the loop test can shrink x; else the reason."""
+    if not isinstance(lst, ast.Name):
+        return "container is not a local name"
+    owner = P._scope_of(lst.id, fn)
+    if owner is None or lst.id in owner.params:
+        return f"`{lst.id}` is not a local list"
+    if owner is not fn:
+        return f"`{lst.id}` belongs to {owner.qual}, the use is in {fn.qual}"
+    W = next((a for a in P.ancestors(op) if isinstance(a, ast.While) and a._fn is fn), None)
+    if W is None or not (isinstance(W.test, ast.Name) and W.test.id == lst.id) or not any(P.inside(op, b) for b in W.body):
+        return f"not in the body of the innermost enclosing `while {lst.id}:`"
+    root, fam = _family(fn)
+    inner = [L for L in P.loops_of(op) if L is not W and P.inside(L, W) and
+             any(P.inside(op, b) for b in L.body)]           # loops whose *body* (not iter / else) repeats the use
+    for g, sn in _shrinks(lst.id, owner, fam):
+        if g is not fn or not P.inside(sn, W):
+            if g is fn:
+                continue                  # outside the loop: the loop test re-establishes non-emptiness
+            continue                      # inside a helper: accounted for at its call sites (listed separately)
+        if sn is op or P.inside(op, sn):
+            if inner:
+                return f"the use shrinks `{lst.id}` itself and repeats inside an inner loop"
+            continue
+        if P.pos(sn) < P.pos(op):
+            return f"`{P.text(sn)[:40]}` (line {sn.lineno}) can shrink `{lst.id}` between the loop test and this use"
+        if any(any(P.inside(sn, b) for b in L.body) for L in inner):
+            return f"`{P.text(sn)[:40]}` (line {sn.lineno}) can shrink `{lst.id}` in an earlier pass of the inner loop"
+    return None
+
+
+def paired_stack(op, lst, fn, cx):
+    """None if `y.pop()` is safe because y mirrors a LOOP-NONEMPTY list x; else the reason."""
+    if not isinstance(lst, ast.Name):
+        return "container is not a local name"
+    y = lst.id
+    owner = P._scope_of(y, fn)
+    if owner is not fn or y in fn.params:
+        return f"`{y}` is not a local list of {fn.qual}"
+    st = P.stmt_of(op)
+    if not (isinstance(st, ast.Expr) and st.value is op and isinstance(st._idx, int) and st._idx > 0):
+        return "not a statement `y.pop()` preceded by the paired pop"
+    prev = getattr(st._parent, st._field)[st._idx - 1]
+    pv = prev.value if isinstance(prev, (ast.Expr, ast.Assign)) else None
+    if not (isinstance(pv, ast.Call) and isinstance(pv.func, ast.Attribute) and pv.func.attr == "pop" and not pv.args
+            and isinstance(pv.func.value, ast.Name) and pv.func.value.id != y and not op.args):
+        return "the statement before it is not `x.pop()` of the mirrored list"
+    x = pv.func.value.id
+    if P._scope_of(x, fn) is not fn or x in fn.params:
+        return f"`{x}` is not a local list of {fn.qual}"
+    r = loop_nonempty(pv, pv.func.value, fn)
+    if r:
+        return f"the paired `{x}.pop()` is not LOOP-NONEMPTY: {r}"
+    root, fam = _family(fn)
+    # x starts empty, y starts as any list
+    xs, ys = P.stores_of(fn).get(x, []), P.stores_of(fn).get(y, [])
+    if len(xs) != 1 or not (isinstance(xs[0]._parent, ast.Assign) and isinstance(xs[0]._parent.value, ast.List)
+                            and not xs[0]._parent.value.elts):
+        return f"`{x}` is not initialised exactly once to []"
+    if len(ys) != 1 or not isinstance(ys[0]._parent, ast.Assign):
+        return f"`{y}` is not initialised exactly once"
+    # every growth of x is adjacent to a growth of y
+    for g in fam:
+        for n in g.mod.nodes(g):
+            if isinstance(n, ast.Call) and isinstance(n.func, ast.Attribute) and _refers(n.func.value, x, g, fn):
+                if n.func.attr in ("copy", "index", "count", "pop", "remove", "clear"):
+                    continue
+                s2 = P.stmt_of(n)
+                ok = n.func.attr == "append" and isinstance(s2, ast.Expr) and s2.value is n and isinstance(s2._idx, int)
+                if ok:
+                    sib = getattr(s2._parent, s2._field)
+                    near = [sib[i] for i in (s2._idx - 1, s2._idx + 1) if 0 <= i < len(sib)]
+                    ok = any(isinstance(t, ast.Expr) and isinstance(t.value, ast.Call) and isinstance(t.value.func, ast.Attribute)
+                             and t.value.func.attr == "append" and _refers(t.value.func.value, y, g, fn) for t in near)
+                if not ok:
+                    return f"`{P.text(n)[:40]}` (line {n.lineno}) grows `{x}` without an adjacent `{y}.append(..)`"
+    # y shrinks only in such pairs
+    for g, sn in _shrinks(y, fn, fam):
+        if isinstance(sn, ast.Call) and isinstance(sn.func, ast.Attribute) and _refers(sn.func.value, y, g, fn) \
+                and sn.func.attr == "pop" and not sn.args:
+            s3 = P.stmt_of(sn)
+            if isinstance(s3, ast.Expr) and s3.value is sn and isinstance(s3._idx, int) and s3._idx > 0:
+                pr = getattr(s3._parent, s3._field)[s3._idx - 1]
+                pc = pr.value if isinstance(pr, (ast.Expr, ast.Assign)) else None
+                if isinstance(pc, ast.Call) and isinstance(pc.func, ast.Attribute) and pc.func.attr == "pop" and \
+                        _refers(pc.func.value, x, g, fn):
+                    continue
+        if ys and sn is ys[0]._parent:
+            continue
+        return f"`{P.text(sn)[:40]}` (line {sn.lineno}) shrinks or leaks `{y}` outside a `{x}.pop(); {y}.pop()` pair"
+    return None
+
+
+def _list_typed(e, fn, cx, depth=0):
+    """e evaluates to a list / tuple / dict (iter() of it cannot raise)."""
+    if isinstance(e, (ast.List, ast.Tuple, ast.ListComp, ast.Dict, ast.DictComp)):
+        return True
+    if isinstance(e, ast.Call) and isinstance(e.func, ast.Name) and e.func.id in ("list", "tuple", "sorted", "dict"):
+        return True
+    if isinstance(e, ast.Attribute):
+        ft = cx.sm.field_types(e.attr)
+        return bool(ft) and ft <= {"list", "tuple", "dict", "List", "Dict", "Tuple"}
+    if isinstance(e, ast.Name) and depth < 3:
+        st = P.stores_of(fn).get(e.id, [])
+        return bool(st) and e.id not in fn.params and all(
+            isinstance(x._parent, ast.Assign) and x._field == "targets" and _list_typed(x._parent.value, fn, cx, depth + 1)
+            for x in st)
+    return False
 
 
 def _nonneg(name, fn):
@@ -1328,7 +1542,21 @@ def rule_cover(res, cx):
         for n in m.nodes(fn):
             if isinstance(n, ast.BinOp) and isinstance(n.op, (ast.Add, ast.BitOr)) and P.text(n.left) == S and \
                     isinstance(n.right, (ast.List, ast.Set, ast.Tuple)) and any(P.text(e) == A for e in n.right.elts):
-                return True
+                # the extended value must persist: passed on to the walk (recursive / helper call, work-list push)
+                # or assigned back; `' -> '.join(S + [A])` in a message is not growth
+                top = n
+                while isinstance(top._parent, ast.Tuple):
+                    top = top._parent
+                par = top._parent
+                if isinstance(par, ast.Call) and top in par.args:
+                    if isinstance(par.func, ast.Attribute) and par.func.attr == "append":
+                        return True
+                    k2, p2 = P.resolve(par, fn)
+                    if k2 == "func" and any(g in _family(fn)[1] for g in p2):
+                        return True
+                if isinstance(par, ast.Assign) and P.text(par.targets[0]) == S:
+                    return True
+                continue
             if isinstance(n, ast.Call) and isinstance(n.func, ast.Attribute) and n.func.attr in ("append", "add") and \
                     P.text(n.func.value) == S and n.args and P.text(n.args[0]) == A:
                 return True
@@ -1340,8 +1568,9 @@ def rule_cover(res, cx):
         if s.subst:
             return False
         fn = s.fn
-        reads_group = any(isinstance(n, ast.Attribute) and n.attr == "group" for n in m.nodes(fn))
-        reads_table = any(P.table_of(n) == "groups" for n in m.nodes(fn))
+        fam_nodes = [n for g in _family(fn)[1] for n in m.nodes(g)]     # the walk may be split over nested helpers
+        reads_group = any(isinstance(n, ast.Attribute) and n.attr == "group" for n in fam_nodes)
+        reads_table = any(P.table_of(n) == "groups" for n in fam_nodes)
         if not (reads_group and reads_table):
             return False
         def looked_up(A):       # the walk looks the same name up in the groups table
